@@ -2,8 +2,10 @@
 
 Streams
   micro : `strip_paren`, CALL_RE.finditer, SUBCALL_RE.search, the chain clean-up, the QUOTES_RE
-          masking loop and the cascade recognisers (FORMAT/ARITH_GOTO/BLOCK/ASSOCIATE/END/
-          VARIABLE/ATTRIB/USE) against their Lean mirrors on random strings (exact comparison).
+          masking loop and the cascade recognisers (BLOCK/ASSOCIATE/END/VARIABLE/ATTRIB/USE:
+          hand-written Lean mirrors; FORMAT/ARITH_GOTO: the parse tree of the compiled regex,
+          regenerated from the working tree and interpreted by the model, with the method
+          `.match`/`.search` read from the call site) on random strings (exact comparison).
   unit  : generated executable parts (AST -> text -> random legal layout -> file -> real FORD
           `Project` in-process):
           (a) correspondence: `unit.calls` before `correlate()` == the Lean `runUnit` on the
@@ -51,6 +53,8 @@ TYPES_COLLIDING = dict(TYPES, t2={"scalars": ["cnt"], "arrays": ["w"], "objs": {
 OBJS = {"a": "t1", "b": "t2", "c": "t1"}
 SCALARS = ["x", "y", "z", "i", "j", "n", "ok"]
 LABELS = ["10", "20", "30", "100"]
+GOTO_SPELLINGS = ["go to", "goto", "GO TO", "GOTO", "Go To", "go  to", "GoTo"]
+FORMAT_ITEMS = ["(a, f(2), i3)", "(3(f8.2, 1x), a)", "('call g(1)', i0)", "(f2(3))", "(1x, 2(i4, sa(2)))"]
 
 
 class Universe:
@@ -237,13 +241,29 @@ class Gen:
         """an action statement allowed after `if (...)` / a label"""
         r = self.r
         k = r.random()
-        if k < 0.45:
+        if k < 0.38:
             return self.assign()
-        if k < 0.85:
+        if k < 0.70:
             return self.call_stmt()
-        if k < 0.92:
-            return ("goto", r.choice(LABELS))
-        return ("simple", r.choice(["return", "exit", "cycle", "continue", "stop"]))
+        if k < 0.80:
+            # a computed GO TO is an action statement like any other: it may follow `if (...)`
+            # and / or a statement label
+            return self.cgoto()
+        if k < 0.86:
+            self.note("goto")
+            return ("goto", r.choice(LABELS), r.choice(GOTO_SPELLINGS))
+        if k < 0.91:
+            return ("simple", r.choice(["return", "exit", "cycle", "continue", "stop"]))
+        if k < 0.97:
+            return self.io_stmt()
+        return self.alloc_stmt()
+
+    def cgoto(self):
+        r = self.r
+        self.note("computed-goto")
+        sel = ("var", "i") if r.random() < 0.7 else self.expr(2)
+        return ("cgoto", r.sample(LABELS, r.choice([1, 2, 2, 3])), sel, r.choice(GOTO_SPELLINGS),
+                r.choice([" (", " (", "(", "  ("]), r.choice([", ", ",", " , "]), r.choice([") ", "), ", ")", "),", ") , "]))
 
     def io_stmt(self):
         r = self.r
@@ -300,7 +320,9 @@ class Gen:
             return self.call_stmt()
         if k < 0.44:
             self.note("if-stmt")
-            return ("ifstmt", self.expr(1), self.action())
+            cond, act = self.expr(1), self.action()
+            self.note("if-stmt+" + act[0])
+            return ("ifstmt", cond, act)
         if k < 0.50:
             return self.io_stmt()
         if k < 0.53:
@@ -374,20 +396,25 @@ class Gen:
         k = r.random()
         if k < 0.30:
             self.note("labelled")
-            return ("labelled", r.choice(LABELS), self.action() if r.random() < 0.8 else ("ifstmt", self.expr(1), self.call_stmt()))
+            act = self.action() if r.random() < 0.7 else ("ifstmt", self.expr(1), self.action())
+            self.note("labelled+" + act[0] + ("+" + act[2][0] if act[0] == "ifstmt" else ""))
+            return ("labelled", r.choice(LABELS), act)
         if k < 0.45:
             self.note("format")
-            return ("format", r.choice(LABELS), r.choice(["(a, f(2), i3)", "(3(f8.2, 1x), a)", "('call g(1)', i0)", "(f2(3))"]))
+            # blanks around the keyword are free; `format(` without a blank is just as legal
+            gap = r.choice([" ", " ", "  ", ""])
+            if gap == "":
+                self.note("format-without-blank")
+            return ("format", r.choice(LABELS), r.choice(FORMAT_ITEMS), r.choice([" ", " ", "  "]),
+                    r.choice(["format", "format", "FORMAT", "Format"]), gap)
         if k < 0.6:
-            self.note("computed-goto")
-            sel = ("var", "i") if r.random() < 0.7 else self.expr(2)
-            return ("cgoto", r.sample(LABELS, 2), sel, r.choice(["go to", "goto", "GO TO"]))
+            return self.cgoto()
         if k < 0.75:
             self.note("arith-if")
             return ("arithif", self.expr(1), r.sample(LABELS, 3))
         if k < 0.85:
             self.note("goto")
-            return ("goto", r.choice(LABELS))
+            return ("goto", r.choice(LABELS), r.choice(GOTO_SPELLINGS))
         if k < 0.93:
             self.note("sync-images")
             return ("sync", self.expr(2))
@@ -491,7 +518,7 @@ class Render:
                 s += self.sp(0.1) + self.arglist(n[4])
             return s
         if t == "goto":
-            return "goto " + n[1]
+            return n[2] + " " + n[1]
         if t == "simple":
             return n[1]
         if t == "ifstmt":
@@ -518,9 +545,9 @@ class Render:
         if t == "labelled":
             return n[1] + " " + self.simple(n[2])
         if t == "format":
-            return n[1] + " format " + n[2]
+            return n[1] + n[3] + n[4] + n[5] + n[2]
         if t == "cgoto":
-            return n[3] + " (" + ", ".join(n[1]) + ")" + self.r.choice([" ", ", "]) + self.e(n[2])
+            return n[3] + n[4] + n[5].join(n[1]) + n[6] + self.e(n[2])
         if t == "arithif":
             return "if (" + self.e(n[1]) + ") " + ", ".join(n[2])
         if t == "sync":
@@ -676,6 +703,7 @@ class Spec:
         self.refs = []   # (last name, identity, context)
         self.ctx = "normal"
         self.block_arrays = []
+        self.format_noblank_heads = []
         self.sync = False
 
     def proc_id(self, name):
@@ -764,10 +792,24 @@ class Spec:
             self.invoke(("bound", n[2], n[3]), n[3])
             for a in n[4] or []:
                 self.e(a)
-        elif t in ("goto", "simple", "format", "doc"):
+        elif t in ("goto", "simple", "doc"):
             pass
+        elif t == "format":
+            if n[5] == "":
+                # tokens directly followed by `(` in the item list (character literals masked)
+                items = re.sub(r"'[^']*'|\"[^\"]*\"", "''", n[2])
+                self.format_noblank_heads += [m.lower() for m in re.findall(r"(\w+)\s*\(", items)]
         elif t == "ifstmt":
-            self.e(n[1]); self.s(n[2])
+            if n[2][0] == "cgoto":
+                # the logical IF and its action are ONE statement: the context of the condition
+                # is the statement's
+                old = self.ctx
+                self.ctx = "computed-goto"
+                self.e(n[1])
+                self.ctx = old
+            else:
+                self.e(n[1])
+            self.s(n[2])
         elif t == "print":
             for x in n[2]:
                 self.e(x)
@@ -879,6 +921,8 @@ def classify_diff(spec: Spec, missing: set, extra: set, dup: list) -> tuple[set,
             classes.add("C08-block-local-array-recorded")
         elif e == ("name", "images") and spec.sync:
             classes.add("C08-sync-images-keyword-recorded")
+        elif e[0] in ("name", "proc") and e[-1] in spec.format_noblank_heads:
+            classes.add("C08-format-without-blank-scanned")
         else:
             unexplained.append(("extra", e))
     for d in dup:
@@ -1034,8 +1078,11 @@ MICRO_ALPHA = ["a", "b1", "_", " ", "(", ")", "()", "%", " % ", "call ", "if", "
 STARTERS = {
     "subcall": ["call ", "CALL  ", "if (a) call ", "if(x)call ", "if (f()) call ", "call a%", "call a % b()%", "If (a) (b) call "],
     "callre": ["a%b(", "a () % c(", "f (", "x%y%z(", "a%b()%c", " q % r (", "a%()"],
-    "FORMAT_RE": ["10 format (", "100  FORMAT (", "10 format(", "format (", "10 format ()", "1\tformat\t(a)"],
-    "ARITH_GOTO_RE": ["go to (", "goto (1,2", "GO  TO (10, 20)", "x goto(1)", "goto ( 1 , 2 ) ", "go to ()"],
+    "FORMAT_RE": ["10 format (", "100  FORMAT (", "10 format(", "format (", "10 format ()", "1\tformat\t(a)",
+                  " 10 format (a)", "10format (a)", "x 10 format (a)", "10 format  (a) x", "1 0 format (a)"],
+    "ARITH_GOTO_RE": ["go to (", "goto (1,2", "GO  TO (10, 20)", "x goto(1)", "goto ( 1 , 2 ) ", "go to ()",
+                      "if (a) go to (10, 20), i", "10 go to (1) i", "10 if (x) goto(1,2)", "if(a)GoTo (1 ,2)", " goto (1)",
+                      "go to (1, a)", "go to (10", "got o (1)", "10  go to(1),", "x = 1; go to (3)"],
     "BLOCK_RE": ["block", "lbl: block", "lbl : BLOCK ", "block data", " block", "a b: block", ": block"],
     "ASSOCIATE_RE": ["associate (", "lbl: associate(", "ASSOCIATE (", "associate ()", "associate (a => b) ", "1: associate ("],
     "END_RE": ["end", "end ", "END block", "end block data", "endassociate", "end associate x", "end subroutine",
@@ -1046,7 +1093,9 @@ STARTERS = {
                     "class  defaults", "TYPE(", "Real*"],
     "ATTRIB_RE": ["asynchronous", "allocatable", "data", "dimension", "external", "optional", "parameter", "pointer",
                   "private", "protected", "public", "save", "target", "value", "volatile", "intent(in)", "intent ( in )",
-                  "intent(in out)", "bind(c)", "bind (c, name=(x))", "BIND(C) ::", "intent()", "data(", "save::", "save ::"],
+                  "intent(in out)", "bind(c)", "bind (c, name=(x))", "BIND(C) ::", "intent()", "data(", "save::", "save ::",
+                  "parameter(", "PARAMETER(n = 3)", "Parameter (", "parameter", "parameterx(", "parameter::", "pointer(",
+                  "parameter/", "parameter ("],
     "USE_RE": ["use m", "use :: m", "use, intrinsic :: iso", "use,non_intrinsic::m", "use m, only: x", "use  m ,", "usem",
                "use ::", "use, intrinsic m", "use , non_intrinsic :: m", "use m x", "USE M"],
 }
@@ -1392,13 +1441,16 @@ def run(tier: str, seed: int, replay: str | None = None) -> int:
         layout_feature_histogram=dict(sorted(feat_hist.items())),
         cascade_branch_histogram=dict(sorted(gate_hist.items())),
         micro_histogram=micro_hist,
-        generated_tables={"intrinsics": tinfo.get("intrinsics"), "cascade_branches": len(tinfo.get("cascade", []))},
+        generated_tables={"intrinsics": tinfo.get("intrinsics"), "cascade_branches": len(tinfo.get("cascade", [])),
+                          "interpreted_guards": tinfo.get("guards")},
     )
     rep.assumptions += [
         "identifiers of the generated units are not Fortran declaration keywords; units under test contain no "
         "internal procedures, derived-type definitions, interfaces or module-level statements",
         "CPython re is on the implementation side only; the hand-written recognisers are its deterministic reading, "
-        "validated on the micro stream",
+        "validated on the micro stream; FORMAT_RE and ARITH_GOTO_RE are not read by hand: their re._parser parse "
+        "trees are regenerated on every run and interpreted by the model (list-of-successes matcher, ASCII "
+        "IGNORECASE), also validated on the micro stream",
         "chains longer than one element are compared before correlate() and by the oracle after it; "
         "`_find_chain_item` itself is not modelled (C07)",
     ]
